@@ -16,6 +16,7 @@ EXPLANATION = ("verified checkers (shape, cover, order, independence: soundness 
                "equivalence by exhaustive evaluation after fill_blackbox")
 SHARD = 40
 HASHSEEDS = {"quick": [0, 1], "thorough": [0, 1, 2, 3]}
+WIDEN = 2          # rounds of extra cases when a proof obligation or the tie breaks without an oracle failure
 KINDS = ["tree", "reconv", "reconv", "multi", "multi", "dag", "dag", "wide"]
 
 
